@@ -497,15 +497,21 @@ fn walk() {
             let mut l1j = jlist(&l1);
             let ctx = match g.gen_range(0..10) {
                 0 => {
-                    how = "ctx".into();
+                    if how == "same" {
+                        how = "ctx".into();
+                    }
                     json!({"t": "role", "j": g.gen_range(1..3), "ext": []})
                 }
                 1 => {
-                    how = "ctx".into();
+                    if how == "same" {
+                        how = "ctx".into();
+                    }
                     json!({"t": "nonce", "j": g.gen_range(0..3), "ext": []})
                 }
                 2 => {
-                    how = "ctx".into();
+                    if how == "same" {
+                        how = "ctx".into();
+                    }
                     json!({"t": "zero", "j": 0, "ext": []})
                 }
                 3 => {
